@@ -15,7 +15,13 @@ ASSUMPTIONS = [
     "across pauses in knot/tunnel/function frames), one flow per part, one part possibly in the default flow; all "
     "interleavings of two flows' operations (exhaustive up to 4 ops each, sampled beyond and for three flows); "
     "0-3 detours at interleaving points: SAVE+LOADNEW, a third flow removed while parked or WHILE CURRENT (with or "
-    "without having run), a detour through another flow, a finished named flow removed while current",
+    "without having run), a detour through another flow, a finished named flow removed while current, a rewind "
+    "(SAVE, play on / third flow, park, LOAD into the same story)",
+    "rewind family (saving at any point of any interleaving preserves all flows, also when the save is loaded into a "
+    "story object that has moved on): prefix, SAVE, a divergence that leaves the live story with more / fewer / "
+    "different parked flows than the save, then LOAD (same object) vs LOADNEW (fresh object) vs never saved, "
+    "followed by SHOWSAVE, a switch to every flow name that exists anywhere + CONT, the remaining ops, SHOWSAVE; "
+    "the three tails must be equal; the LOAD variants also run through the save-aware model (engine_save)",
 ]
 
 WORDS = ["amber", "brook", "cedar", "delta", "ember", "fjord", "grove", "haven"]
@@ -122,7 +128,8 @@ def flow_lines(res_lines, tags):
     return out
 
 
-EXTRA_KINDS = ["save", "remove-third", "switch-back", "remove-current", "remove-current", "remove-current-ran"]
+EXTRA_KINDS = ["save", "remove-third", "switch-back", "remove-current", "remove-current", "remove-current-ran",
+               "rewind"]
 
 
 def sw_op(name):
@@ -158,6 +165,21 @@ def build_interleaved(rng, il, names, extras_at, remove_finished):
             lx = kind; emit([["SWITCH", "Fz"], ["REMOVE_FLOW", "Fz"]]); cur = None
         elif kind == "remove-current-ran":      # same, after the third flow produced a line of the root content
             lx = kind; emit([["SWITCH", "Fz"], ["CONT"], ["REMOVE_FLOW", "Fz"]]); cur = None
+        elif kind == "rewind":
+            # the host saves, plays on (the next ops of the interleaving — possibly creating a flow the save does not
+            # have — and/or a third flow that runs a line), parks whatever became current and rewinds by loading the
+            # save into the SAME story object; the load restores the current flow too, so `cur` is unchanged
+            lx = kind; emit([["SAVE", "s"]])
+            c2 = cur
+            for who2, op2 in il[pos: pos + rng.randint(1, 3)]:
+                if names[who2] != c2:
+                    emit([sw_op(names[who2])]); c2 = names[who2]
+                emit([op2])
+            if rng.random() < 0.5:
+                emit([["SWITCH", "Fz"], ["CONT"]])
+            if rng.random() < 0.7:
+                emit([sw_op(rng.choice(sorted(names.values(), key=str)))])
+            emit([["LOAD", "s"]])
         if cur != nf:
             emit([sw_op(nf)]); cur = nf
         emit([op], who)
@@ -166,6 +188,147 @@ def build_interleaved(rng, il, names, extras_at, remove_finished):
             # the host is done with a named flow and removes it while it is still the current one
             lx = "remove-finished-current"; emit([["REMOVE_FLOW", nf]]); cur = None
     return script, tags, lastx
+
+
+def walk_ops(ops_il, names, cur, existed, out):
+    """append the ops of `ops_il` ([(part, op)]) with the flow switches they need; cur = flow that is current on
+    entry (None: default flow, "?": unknown — always switch first); returns the flow that is current afterwards"""
+    for who, op in ops_il:
+        nf = names[who]
+        if nf != cur:
+            out.append(sw_op(nf)); cur = nf
+            if nf is not None:
+                existed.add(nf)
+        out.append(op)
+    return cur
+
+
+def gen_divergence(rng, il, names, i, cur, saved):
+    """what the host does between taking a save and loading it again: 1-4 actions out of: play on (the next ops of
+    the interleaving, which may create a flow the save does not have), run a third flow, create a flow under a name
+    that does not exist yet, REMOVE a flow (parked or current) that the save has, go to the default flow; finally
+    (mostly) park whatever became current.  Returns (ops, live flow names, current flow)."""
+    D, live, c2, done = [], set(saved), cur, 0
+    for _ in range(rng.randint(1, 4)):
+        a = rng.choice(["ahead", "ahead", "third", "remove", "newflow", "default"])
+        if a == "ahead":
+            k = rng.randint(1, 3)
+            c2 = walk_ops(il[i + done: i + done + k], names, c2, live, D); done += k
+        elif a == "third":
+            D += [["SWITCH", "Fz"]] + [["CONT"]] * rng.randint(0, 2); live.add("Fz"); c2 = "Fz"
+        elif a == "newflow":
+            fresh = sorted((set(v for v in names.values() if v) | {"Fy"}) - live)
+            if fresh:
+                n = rng.choice(fresh)
+                D += [["SWITCH", n], ["CONT"]]; live.add(n); c2 = n
+        elif a == "remove" and live:
+            n = rng.choice(sorted(live))
+            D.append(["REMOVE_FLOW", n]); live.discard(n)
+            if n == c2:
+                c2 = None                          # removing the current flow lands on the default flow
+        elif a == "default":
+            D.append(["SWITCH_DEFAULT"]); c2 = None
+    if rng.random() < 0.8:
+        others = [n for n in sorted(live) + [None] if n != c2]
+        if others:
+            c2 = rng.choice(others); D.append(sw_op(c2))
+    return D, live, c2
+
+
+PROBE_EXTRA = ["Fz", "Fy", None]     # third flow, a name only divergences create, the default flow
+
+
+def build_rewind(rng, il, names, i, fixed=None):
+    """rewind family: prefix P = il[:i] (optionally a third flow Fz is created before the save, so that the save is
+    a multi-flow one even when a part lives in the default flow), SAVE, divergence D, LOAD into the SAME story
+    (variant A) / LOADNEW into a fresh one (B) / no save, no divergence, no load at all (C), then the SAME tail T:
+    SHOWSAVE, a probe that switches to EVERY flow name that exists anywhere (parts' flows, Fz, Fy, default) and
+    continues it one line, the remaining ops il[i:], SHOWSAVE — probe first, ops first, or probe only.
+    A correct load makes the three tails equal line by line.
+    fixed: dict(pre=[ops], div=[ops], order=..) for regression inputs.
+    Returns (scripts {A,B,C}, len(T), info)."""
+    P, existed = [], set()
+    cur = walk_ops(il[:i], names, None, existed, P)
+    if fixed is not None:
+        P += fixed.get("pre", [])
+        D, order = fixed["div"], fixed.get("order", "probe-first")
+        rel, nsaved = fixed.get("rel", "fixed"), None
+    else:
+        if rng.random() < 0.5:
+            P += [["SWITCH", "Fz"]] + [["CONT"]] * rng.randint(0, 1); existed.add("Fz")
+            if rng.random() < 0.6:
+                P.append(sw_op(cur))
+            else:
+                cur = "Fz"
+        D, live, c2 = gen_divergence(rng, il, names, i, cur, existed)
+        order = rng.choice(["probe-first", "probe-first", "ops-first", "probe-only"])
+        nsaved = len(existed) + 1
+        if (live - existed) - {c2}:
+            rel = "live-has-parked-flow-the-save-lacks"
+        elif existed - live:
+            rel = "save-has-flow-the-live-story-lacks"
+        elif live - existed:
+            rel = "live-current-flow-not-in-save"
+        else:
+            rel = "same-flow-names"
+        rel += ":single-flow-save" if nsaved == 1 else ""
+    pn = sorted(set(v for v in names.values() if v)) + PROBE_EXTRA
+    if fixed is None:
+        rng.shuffle(pn)
+    probe = [x for n in pn for x in (sw_op(n), ["CONT"])]
+    rest = []
+    walk_ops(il[i:], names, "?", set(), rest)
+    T = [["SHOWSAVE"]] + {"probe-first": probe + rest, "ops-first": rest + probe, "probe-only": probe}[order] \
+        + [["SHOWSAVE"]]
+    scripts = dict(A=P + [["SAVE", "s"]] + D + [["LOAD", "s"]] + T,
+                   B=P + [["SAVE", "s"]] + D + [["LOADNEW", "s"]] + T,
+                   C=P + T)
+    return scripts, len(T), dict(rel=rel, order=order, save_at=i)
+
+
+# fixed regression inputs of the rewind family: (ink, names, il, i, fixed)
+REWIND_REGRESSION = [
+    # undo to an earlier multi-flow save: flow Fb was created after the save point and parked before the load;
+    # after the load Fb must not exist (a switch to it starts a fresh flow at the top of the story)
+    ("""VAR g = 1
+Main line.
+Second main.
+-> DONE
+=== a_start ===
+a1 {g}
+a2
+a3
+-> END
+=== b_start ===
+b1
+b2
+b3
+-> END
+""", {"a": "Fa", "b": "Fb"},
+     [("a", ["PATH", "a_start", True]), ("a", ["CONT"]), ("b", ["PATH", "b_start", True]), ("b", ["CONT"]),
+      ("a", ["CONT"]), ("b", ["CONT"])], 2,
+     dict(div=[["SWITCH", "Fb"], ["PATH", "b_start", True], ["CONT"], ["SWITCH", "Fa"]], order="probe-first",
+          rel="live-has-parked-flow-the-save-lacks")),
+    # the save has a flow that the live story removed in the meantime
+    ("""VAR g = 1
+Main line.
+Second main.
+-> DONE
+=== a_start ===
+~ temp t = 4
+a1 {g}
+a2 {t}
+-> END
+=== b_start ===
+b1
+* [pick] picked
+  -> END
+""", {"a": None, "b": "Fb"},
+     [("a", ["PATH", "a_start", True]), ("a", ["CONT"]), ("b", ["PATH", "b_start", True]), ("b", ["CONT"]),
+      ("a", ["CONT"]), ("b", ["CHOOSE", 0]), ("b", ["CONT"])], 4,
+     dict(div=[["REMOVE_FLOW", "Fb"], ["SWITCH", "Fz"], ["CONT"], ["SWITCH_DEFAULT"]], order="ops-first",
+          rel="save-has-flow-the-live-story-lacks")),
+]
 
 
 # fixed regression inputs (run on every tier in addition to the generated ones):
@@ -232,6 +395,18 @@ def run(ctx):
         cid = f"{pid}|il1"
         cases.append(dict(id=cid, ink=src, seed=42, fuel=30000, script=script))
         meta[cid] = dict(kind="il", n=pid, tags=tags, lastx=lastx, flows=list(names))
+    rw_groups, rw_rel = {}, {}
+
+    def add_rewind(gid, src, il, names, i, fixed=None):
+        scripts, tl, info = build_rewind(ctx.rng, il, names, i, fixed)
+        for v, sc in scripts.items():
+            cases.append(dict(id=f"{gid}{v}", ink=src, seed=42, fuel=30000, script=sc))
+            meta[f"{gid}{v}"] = dict(kind="rw")
+        rw_groups[gid] = dict(tail=tl, **info)
+        rw_rel[info["rel"]] = rw_rel.get(info["rel"], 0) + 1
+
+    for n, (src, names, il, i, fixed) in enumerate(REWIND_REGRESSION):
+        add_rewind(f"rr{n}|rw0", src, il, names, i, fixed)
     for n in range(nprog):
         nparts = 2 if (ctx.quick() or ctx.rng.random() < 0.7) else 3
         src = gen_program(ctx.rng, nparts)
@@ -257,9 +432,11 @@ def run(ctx):
             c, m = solo_case(f"{pid}|solo{f}", src, f, names[f], solo_ops[f])
             cases.append(c); meta[c["id"]] = m
         k = 0
+        il_list = []
         for il in interleavings(solo_ops[fa], solo_ops[fb], 35 if ctx.quick() else 70, ctx.rng):
             k += 1
             il = [(fa if who == "A" else fb, op) for who, op in il]
+            il_list.append(il)
             # scaffolding detours at 0-3 of the interleaving points, kinds drawn independently
             nx = ctx.rng.choice([0, 1, 1, 2, 2, 3])
             extras_at = {p: ctx.rng.choice(EXTRA_KINDS) for p in ctx.rng.sample(range(len(il)), min(nx, len(il)))}
@@ -270,6 +447,12 @@ def run(ctx):
             cid = f"{pid}|il{k}"
             cases.append(dict(id=cid, ink=src, seed=42, fuel=30000, script=script))
             meta[cid] = dict(kind="il", n=pid, tags=tags, lastx=lastx, flows=[fa, fb], default=dflt)
+        # rewind family: save at a random point of a random interleaving, diverge, load into the same / a fresh story
+        for k in range((12 if ctx.quick() else 30) if il_list else 0):
+            il = ctx.rng.choice(il_list)
+            # the same program is also played with BOTH parts in named flows (multi-flow saves from the start)
+            nm = names if ctx.rng.random() < 0.5 else {f: "F" + f for f in names}
+            add_rewind(f"{pid}|rw{k}", src, il, nm, ctx.rng.randint(0, len(il)))
     res = {r["id"]: r for r in vlib.run_inkdrive(cases, exe)}
     fails, n_checked = [], 0
     for cid, m in meta.items():
@@ -302,17 +485,47 @@ def run(ctx):
             lx = m["lastx"][at] if at < len(m["lastx"]) else None
             key = "flow-disturbed-by-other-flow" + (":after-" + lx if lx else "")
             fails.append(dict(key=key, case=case, flow=f, script_line=at, alone=alone, interleaved=inter))
+    # rewind family: the tails of the three variants must be equal line by line
+    n_rw = 0
+    for gid, g in rw_groups.items():
+        rs = {v: res.get(gid + v) for v in "ABC"}
+        if any((not r) or r.get("out_of_fuel") or r.get("compile") != "ok" for r in rs.values()):
+            continue
+        cs = {v: next(c for c in cases if c["id"] == gid + v) for v in "ABC"}
+        bad = [v for v in "ABC" if rs[v].get("crash") is not None
+               or any(hist.split_line(l)[1].startswith("panic") for l in rs[v]["lines"])]
+        if bad:
+            fails.append(dict(key="panic", case=cs[bad[0]])); continue
+        if any(len(rs[v]["lines"]) != 1 + len(cs[v]["script"]) for v in "ABC"):
+            continue
+        n_rw += 1
+        tails = {v: [hist.split_line(l)[1:] for l in rs[v]["lines"][-g["tail"]:]] for v in "ABC"}
+        for x, y, what in (("B", "C", "fresh-load-differs-from-never-saved"),
+                           ("A", "B", "load-into-live-story-differs-from-fresh-load")):
+            d = next((k for k, (p_, q_) in enumerate(zip(tails[x], tails[y])) if p_ != q_), None)
+            if d is not None:
+                op = cs[x]["script"][len(cs[x]["script"]) - g["tail"] + d]
+                fails.append(dict(key=f"rewind:{what}:{g['rel']}", case=cs[x], reference_case=cs[y],
+                                  save_at=g["save_at"], tail_line=d, op=op,
+                                  got=" | ".join(tails[x][d])[:600], reference=" | ".join(tails[y][d])[:600]))
+                break
     # correspondence (scripts with SAVE need the save-aware model)
-    plain = [c for c in cases if not any(o[0] in ("SAVE", "LOADNEW", "STACKINFO") for o in c["script"])]
+    plain = [c for c in cases if not any(o[0] in ("SAVE", "LOADNEW", "STACKINFO", "SHOWSAVE") for o in c["script"])]
     ctx.rng.shuffle(plain)
     plain = plain[: (40 if ctx.quick() else 400)]
     mcases = [dict(c, id="m:" + c["id"]) for c in plain]
     cres = engine.compare(mcases, exe, sw, shard=(8 if ctx.quick() else 40))
     try:
         import engine_save
-        withsave = [c for c in cases if any(o[0] == "SAVE" for o in c["script"])]
+        withsave = [c for c in cases if any(o[0] == "SAVE" for o in c["script"]) and meta[c["id"]]["kind"] == "il"]
         ctx.rng.shuffle(withsave)
-        scases = [dict(c, id="s:" + c["id"]) for c in withsave[: (15 if ctx.quick() else 150)]]
+        # rewind family, variant A (LOAD into the live story after a divergence); the fixed ones always
+        rwa = [c for c in cases if meta[c["id"]]["kind"] == "rw" and c["id"].endswith("A")]
+        rwfixed = [c for c in rwa if c["id"].startswith("rr")]
+        rwa = [c for c in rwa if not c["id"].startswith("rr")]
+        ctx.rng.shuffle(rwa)
+        scases = [dict(c, id="s:" + c["id"]) for c in withsave[: (15 if ctx.quick() else 150)]
+                  + rwfixed + rwa[: (10 if ctx.quick() else 100)]]
         sres = engine_save.compare(scases, shard=(5 if ctx.quick() else 24))
         # the save-aware model belongs to C02; here a model-side failure is only noted
         bad = [r for r in sres if r["status"] == "model-error"]
@@ -333,8 +546,11 @@ def run(ctx):
              "/ a third flow created and removed while not current / created and removed WHILE CURRENT (with or "
              "without having run) / a detour through another flow and back, and a finished named flow removed while "
              "current; each flow's transcript (text, choices, error and warning counts) compared with its solo "
-             "transcript; plus fixed regression scripts",
-        detours_used=kinds_used,
+             "transcript; plus fixed regression scripts; REWIND family: SAVE at a random point of an interleaving, a "
+             "divergence (play on / third flow / new flow / REMOVE_FLOW / default flow, then park), LOAD into the SAME "
+             "story vs LOADNEW vs never saved, then SHOWSAVE, switch to every flow name (parts, Fz, Fy, default) and "
+             "continue it, the remaining ops, SHOWSAVE: the three tails compared line by line (and with the model)",
+        detours_used=kinds_used, rewind_groups_checked=n_rw, rewind_live_vs_saved_flows=rw_rel,
         samples=[cases[-1]["script"] if cases else []],
         traces_validated_against_impl=agree, correspondence_mismatches=len(mism), programs=nprog))
     seen = set()
@@ -358,4 +574,8 @@ def replay(ctx, payload):
     exe = vlib.build_harness()
     r = vlib.run_inkdrive([payload["replay"]["case"]], exe)[0]
     print("\n".join(r["lines"]))
+    ref = payload["replay"].get("reference_case")
+    if ref:
+        print("--- reference (its tail must equal the tail above) ---")
+        print("\n".join(vlib.run_inkdrive([ref], exe)[0]["lines"]))
     ctx.coverage.update(dict(evaluations=1, distinct_nontrivial=2, obligations=1, discharged=1))
